@@ -306,6 +306,36 @@ def check_inout_size(rep, prog):
         raise facts.AnalysisBroken('R-inout-size found only %d call sites' % n)
 
 
+
+def check_ubits_private(rep, prog):
+    """the bit writer's cache and cursor are private to ubits.h: a function that wants octets in the output goes through
+    ubits_put, which keeps cache and memory in the order the bits were written"""
+    rep.rule('R-ubits-private', 'the fields of struct ubits (buffer, buffer_end, bits, available, overflow, direction) are read and written only by the ubits_* functions '
+             'of ubits.h: a helper that copies octets straight to ->buffer while bits are still pending in the cache (ubuf_block_extract_bits with an '
+             'octet-aligned writer, say) puts them in memory before the bits written earlier')
+    n, bad = 0, []
+    for u in [prog.hdr] + list(prog.units.values()):
+        for fn in sorted(u.funcs.values(), key=lambda f: f.name):
+            if not fn.blocks or fn.name.startswith('ubits_'):
+                continue
+            for _, _, x in fn.nodes():
+                if x.get('k') == 'mem' and x.get('rec') == 'ubits':
+                    bad.append((fn, x))
+                n += 1
+    seen = set()
+    for fn, x in bad:
+        if fn.name in seen:
+            continue
+        seen.add(fn.name)
+        rep.add('R-ubits-private', fn.name, VIOLATED, '%s:%s' % (fn.file, x.get('l')),
+                what='%s accesses ubits.%s directly (line %s): only ubits_init / ubits_put / ubits_get / ubits_clean keep the 32-bit cache and the memory cursor consistent' % (
+                    fn.name, x.get('f'), x.get('l')))
+    if not bad:
+        rep.add('R-ubits-private', 'all-functions', HOLDS, 'include/upipe/ubits.h', nodes_examined=n)
+    if n < 1000:
+        raise facts.AnalysisBroken('R-ubits-private examined only %d nodes' % n)
+
+
 def run(tier='quick', repo=None):
     repo = repo or facts.REPO
     rep = Report(PROP, tier)
@@ -396,6 +426,7 @@ def run(tier='quick', repo=None):
     check_inverse(rep, prog, tier)
     check_stream(rep, repo, tier)
     check_inout_size(rep, prog)
+    check_ubits_private(rep, prog)
     rep.tables['invariants'] = {'ubits write mode': 'available in [1,32]', 'ubits read mode': 'available in [0,8]', 'ubuf_block_stream': 'available in [0,32]'}
     rep.assumptions = ['callers respect assert(nb && nb <= 32) (the asserted pre-condition bounds the domain)',
                        'buffers longer than 5 octets behave like 5 for the bounds checks of these functions (each call consumes at most 5 octets)']
